@@ -131,7 +131,17 @@ swallows and tick slots leaked by panics (C18: Close mid-poll, six panics in a r
 all blocks (C19: tagged block content). A result collector recycled by the runner while a flow still post-processes its slice (C12-w7-1) led to the op
 `par`: two flows overlap on the shared runner, the first held inside a slow sink. One change was left to the property
 that owns the changed function, whose check flags it with a failing history: C09-w7-2 (coordinator.Accept: C06).
-Across the three waves of this session the recurring theme was **something kept from an earlier call** - a memo, a
+Wave 8 (16 changes for C02 C03 C05 C08 C09 C12 C15 C18, ids `Cxx-w8-k`): 8 of 16 flagged on the first run by the
+owning check (three of them with a family added from the seeding report minutes earlier: mid-size results just over
+the byte limit, an empty history after a non-empty one, 2 + 9 proposals offered; one, a previous-outcome memo keyed
+by sequence number and length, only as a broken obligation - the harness now hands instance 1 another valid previous
+outcome of the same length first and finds the failing round), 3 more by a neighbouring check (C11, C12, C13). The
+misses, all flagged now: log data that is present but all zero taken for absent (C15: generated once in twelve), a
+package-level memo of the last decoded outcome (C15: the caller writes into its result, another work-id generator
+decodes the same bytes, the bytes are decoded again), a pre-check `>=` against the maximum observation length (C03:
+an observation tuned to exactly 1,000,000 bytes), a result store that drains its close token at Start (C18: the
+real result store as a fourth service kind under the real recoverer).
+Across the four waves of this session the recurring theme was **something kept from an earlier call** - a memo, a
 pooled buffer, a reused decode target, a remembered height / cut / verdict / block - behind an interface that reads
 as a pure function; the harnesses now routinely (i) use long-lived instances and make an unrelated earlier call,
 (ii) hold on to what a call returned and re-read it after later calls, (iii) let another instance or digest go first.
